@@ -12,9 +12,9 @@ import (
 // feeBook is what the fee-distribution module has booked, as raw 18-decimal integers.
 type feeBook struct {
 	Supply        *big.Int
-	Collector     *big.Int // bank balance of fee_collector (integer coins)
-	DistrAccount  *big.Int // bank balance of the distribution module account
-	Community     *big.Int // raw (x 10^18)
+	Collector     *big.Int            // bank balance of fee_collector (integer coins)
+	DistrAccount  *big.Int            // bank balance of the distribution module account
+	Community     *big.Int            // raw (x 10^18)
 	Commission    map[string]*big.Int // validator address -> raw
 	Outstanding   map[string]*big.Int
 	StakerRewards map[string]*big.Int
@@ -90,9 +90,9 @@ type feesInv struct {
 	before *feeBook
 	// statistics
 	distrWithFees, distrZeroPower, distrZeroFees, mints int
-	rich                                                  bool
-	midPowers                                             map[string]int64
-	midTotal                                              int64
+	rich                                                bool
+	midPowers                                           map[string]int64
+	midTotal                                            int64
 }
 
 func (f *feesInv) Init(m *Machine) error {
